@@ -10,12 +10,12 @@ from lib import core, tlc, recio, t2dbuild
 POOL = r"""
 Gen(l, d, e) == [ltab |-> l, delv |-> d, enth |-> e]
 Pool == {
-  [kind |-> "SIMUL"], [kind |-> "ROCKS", nads |-> <<0, 2, 1>>], [kind |-> "ROCKS", nads |-> <<2>>],
+  [kind |-> "SIMUL"], [kind |-> "ROCKS", nads |-> <<0, 2, 1>>], [kind |-> "ROCKS", nads |-> <<2>>], [kind |-> "ROCKS", nads |-> <<3, 0>>],
   [kind |-> "PARAM", nts |-> 0, ninc |-> 0], [kind |-> "PARAM", nts |-> 2, ninc |-> 4], [kind |-> "PARAM", nts |-> 1, ninc |-> 5],
   [kind |-> "PARAM", nts |-> 0, ninc |-> 12],
   [kind |-> "MOMOP"], [kind |-> "START"], [kind |-> "NOVER"], [kind |-> "RPCAP"], [kind |-> "MULTI", ncomp |-> 2], [kind |-> "LINEQ"], [kind |-> "SOLVR"],
   [kind |-> "TIMES", n |-> 8], [kind |-> "TIMES", n |-> 9], [kind |-> "SELEC", n |-> 2], [kind |-> "DIFFU", n |-> 2],
-  [kind |-> "ELEME", n |-> 3], [kind |-> "CONNE", n |-> 2], [kind |-> "MESHM", n |-> 3], [kind |-> "MESHM", n |-> 4], [kind |-> "MESHM", n |-> 5],
+  [kind |-> "ELEME", n |-> 3], [kind |-> "CONNE", n |-> 2], [kind |-> "MESHM", n |-> 3], [kind |-> "MESHM", n |-> 4], [kind |-> "MESHM", n |-> 5], [kind |-> "MESHM", n |-> 6],
   [kind |-> "GENER", gens |-> <<Gen(0, FALSE, FALSE), Gen(4, FALSE, TRUE), Gen(5, FALSE, FALSE), Gen(3, TRUE, FALSE), Gen(12, FALSE, TRUE), Gen(1, FALSE, FALSE)>>],
   [kind |-> "SHORT", b |-> 1, c |-> 0, g |-> 2], [kind |-> "SHORT", b |-> 2, c |-> 1, g |-> 0], [kind |-> "FOFT", n |-> 2], [kind |-> "COFT", n |-> 1],
   [kind |-> "GOFT", n |-> 2], [kind |-> "INCON", n |-> 2], [kind |-> "INDOM", n |-> 1]
@@ -78,9 +78,9 @@ def wf(kinds, secs=None):
 
 
 OPTIONAL = [
-    {"kind": "SIMUL"}, {"kind": "ROCKS", "nads": [0, 2, 1]}, {"kind": "ROCKS", "nads": [2]}, {"kind": "MOMOP"}, {"kind": "START"},
+    {"kind": "SIMUL"}, {"kind": "ROCKS", "nads": [0, 2, 1]}, {"kind": "ROCKS", "nads": [2]}, {"kind": "ROCKS", "nads": [3, 0]}, {"kind": "MOMOP"}, {"kind": "START"},
     {"kind": "NOVER"}, {"kind": "RPCAP"}, {"kind": "MULTI", "ncomp": 2}, {"kind": "LINEQ"}, {"kind": "SOLVR"}, {"kind": "TIMES", "n": 8},
-    {"kind": "TIMES", "n": 9}, {"kind": "SELEC", "n": 2}, {"kind": "MESHM", "n": 3}, {"kind": "MESHM", "n": 4}, {"kind": "MESHM", "n": 5},
+    {"kind": "TIMES", "n": 9}, {"kind": "SELEC", "n": 2}, {"kind": "MESHM", "n": 3}, {"kind": "MESHM", "n": 4}, {"kind": "MESHM", "n": 5}, {"kind": "MESHM", "n": 6},
     {"kind": "GENER", "gens": [{"ltab": 0, "delv": False, "enth": False}, {"ltab": 4, "delv": False, "enth": True},
                                {"ltab": 5, "delv": False, "enth": False}, {"ltab": 3, "delv": True, "enth": False},
                                {"ltab": 12, "delv": False, "enth": True}, {"ltab": 1, "delv": False, "enth": False}]},
@@ -109,10 +109,10 @@ def small_docs(rng, limit):
 
 
 def random_full_doc(rng, autough2):
-    shapes = {"ROCKS": {"nads": [rng.choice([0, 1, 2]) for _ in range(rng.randint(1, 3))]},
+    shapes = {"ROCKS": {"nads": [rng.choice([0, 1, 2, 2, 3, 5]) for _ in range(rng.randint(1, 3))]},
               "PARAM": {"nts": rng.choice([0, 1, 2]), "ninc": rng.choice([0, 1, 3, 4, 5, 8, 9, 12])},
               "MULTI": {"ncomp": 2}, "TIMES": {"n": rng.choice([1, 7, 8, 9, 16, 17])}, "SELEC": {"n": rng.choice([1, 2, 3])},
-              "DIFFU": {"n": 2}, "ELEME": {"n": rng.randint(2, 6)}, "CONNE": {"n": rng.randint(1, 5)}, "MESHM": {"n": rng.choice([3, 4, 5])},
+              "DIFFU": {"n": 2}, "ELEME": {"n": rng.randint(2, 6)}, "CONNE": {"n": rng.randint(1, 5)}, "MESHM": {"n": rng.choice([3, 4, 5, 6])},
               "GENER": {"gens": [{"ltab": rng.choice([0, 1, 2, 4, 5, 8, 9, 12]), "delv": False, "enth": rng.random() < 0.5}
                                  for _ in range(rng.randint(1, 4))] + [{"ltab": 3, "delv": True, "enth": False}]},
               "SHORT": {"b": rng.randint(0, 2), "c": rng.randint(0, 1), "g": rng.randint(0, 2)},
